@@ -46,11 +46,13 @@ Proof.
 Qed.
 Print Assumptions C14_closed_absorbing.
 
-(* Even calls outside the alphabet (pranswer / rollback descriptions) cannot leave closed. *)
-Theorem C14_closed_stays_closed : forall ops s, is_closed s = true -> sig s = Closed ->
-  is_closed (fst (run s ops)) = true /\ sig (fst (run s ops)) = Closed.
-Proof. exact closed_stays_closed. Qed.
-Print Assumptions C14_closed_stays_closed.
+(* The same for calls outside the alphabet (pranswer / rollback descriptions, any content): after
+   close nothing changes any more and only close() itself returns normally. *)
+Theorem C14_closed_absorbing_any : forall ops s, is_closed s = true -> sig s = Closed ->
+  fst (run s ops) = s /\
+  Forall2 (fun o r => r = Done -> o = Close) ops (snd (run s ops)).
+Proof. exact closed_absorbing_any. Qed.
+Print Assumptions C14_closed_absorbing_any.
 
 (* T. Every state reachable from a new peer connection by ANY list of calls of the alphabet is
    consistent (record `inv` in Proof/JsepP.v):
